@@ -125,6 +125,13 @@ func subHeader(h http.Header, drop ...string) string {
 
 func suiteResp(r *rng, n int) {
 	installClock()
+	// the process has already compressed something per request with a fast custom profile (an uncacheable answer
+	// of another server) before the first cacheable response is stored
+	compress.Reset([]config.CompressConfig{{Name: "fast", Levels: map[string]uint{"gzip": 1, "br": 1}}})
+	for k := 0; k < 4; k++ {
+		compress.Get("fast").Gzip(bytes.Repeat([]byte("warm-up "), 200+k))
+		compress.Get("fast").Brotli(bytes.Repeat([]byte("warm-up "), 200+k))
+	}
 	for i := 0; i < n; i++ {
 		cr := r.fork(uint64(i))
 		minLenCfg := cr.pick2(0, 0, 1, 100, 5000)
@@ -185,7 +192,19 @@ func suiteResp(r *rng, n int) {
 		uh["Date"] = []string{"Mon, 01 Jan 2024 00:00:00 GMT"}
 		uh["Connection"] = []string{"keep-alive"}
 		uh["Content-Length"] = []string{itoa(int64(len(data)))}
-		p := newPipeline(1000, "300s", true, opt, nil, nil)
+		var p *pipeline
+		if cr.chance(30) {
+			// the server is started with OTHER compress settings and updated to the real ones while running: the
+			// handler chain built at start must follow the update
+			decoy := server.ServerOption{Addr: ":0", CompressMinLength: 7777, CompressContentTypeFilter: regexp.MustCompile("never-matches")}
+			p = newPipeline(1000, "300s", true, decoy, nil, nil)
+			real := opt
+			real.Locations, real.Cache = []string{"l1"}, "c1"
+			p.srv.Update(real)
+			stat("live-updated-options")
+		} else {
+			p = newPipeline(1000, "300s", true, opt, nil, nil)
+		}
 		p.setScript(answer(status, uh, data))
 		uri := fmt.Sprintf("/r/%d", i)
 		stat("enc-" + enc)
@@ -237,7 +256,12 @@ func suiteResp(r *rng, n int) {
 					}
 					best := compress.Get(compress.BestCompression)
 					if len(stored.GzipBody) != 0 {
-						ref, _ := best.Gzip(body)
+						// reference made with the standard library directly (level 9), not through pike's own encoder
+						var rb bytes.Buffer
+						zw, _ := gzip.NewWriterLevel(&rb, gzip.BestCompression)
+						zw.Write(body)
+						zw.Close()
+						ref := rb.Bytes()
 						emit("resp", "variant", itoa(int64(i)), "gzip", b2s(bytes.Equal(ref, stored.GzipBody)), itoa(int64(len(stored.GzipBody))), itoa(int64(len(ref))))
 					}
 					if len(stored.BrBody) != 0 {
